@@ -93,6 +93,55 @@ def _time_value(arrival, clockrate):
     return fractions.Fraction(arrival, clockrate)
 
 
+def gen_rtx_case(rng):
+    """media packets (SSRC 1234, payload type 100) with holes and repair packets on the RTX stream (SSRC 5678, payload
+    type 101, carrying the original sequence number): which stream's counters does each arrival feed?"""
+    seq = rng.choice([0, 1000, 65500, 65530])
+    rtx_seq = rng.randrange(65536)
+    pk = []
+    lost = []
+    for _ in range(rng.randrange(3, 30)):
+        seq = (seq + 1) & 0xFFFF
+        if rng.random() < 0.25:
+            lost.append(seq)
+            continue
+        pk.append([0, seq])
+        if lost and rng.random() < 0.5:
+            rtx_seq = (rtx_seq + 1) & 0xFFFF
+            pk.append([1, rtx_seq, lost.pop(0)])
+    return ["rtx", pk]
+
+
+def run_rtx_case(case):
+    """{ssrc: packets_received} of a real video RTCRtpReceiver with RTX negotiated, and what the wire says"""
+    from aiortc import rtp
+    from harness.props.c11 import ReceiverRig, _loop_run
+    out = {}
+
+    async def go():
+        rig = ReceiverRig([[[100, [0]], [101, [3, [100]]]], [[5678, 1234]], [99]], None)
+        await rig.start()
+        try:
+            ts = 1000
+            for i, p in enumerate(case[1]):
+                ts += 3000
+                if p[0] == 0:
+                    pkt = rtp.RtpPacket(payload_type=100, sequence_number=p[1], timestamp=ts, ssrc=1234, payload=b"\x10\x00\x00\x01data")
+                else:
+                    pkt = rtp.RtpPacket(payload_type=101, sequence_number=p[1], timestamp=ts, ssrc=5678,
+                                        payload=struct.pack("!H", p[2]) + b"\x10\x00\x00\x01data")
+                await rig.handle(pkt, arrival_ms=i * 10)
+            streams = getattr(rig.receiver, "_RTCRtpReceiver__remote_streams")
+            out["got"] = sorted([ssrc, st.packets_received] for ssrc, st in streams.items())
+        finally:
+            await rig.stop()
+    _loop_run(go())
+    media = sum(1 for p in case[1] if p[0] == 0)
+    repair = sum(1 for p in case[1] if p[0] == 1)
+    out["want"] = sorted(x for x in ([1234, media], [5678, repair]) if x[1])
+    return out
+
+
 class C18(Check):
     prop = "C18"
     props_file = "Props/C18.v"
@@ -269,11 +318,17 @@ class C18(Check):
         return [case[0], case[1], case[4]]
 
     def describe_case(self, case):
+        if case and case[0] == "rtx":
+            return {"rtx_case": case[1]}
         if len(case[4]) > 60:
             return [case[0], case[1], case[2], case[3], case[4][:60] + [["...", len(case[4])]]]
         return case
 
     def shrink_candidates(self, case):
+        if case and case[0] == "rtx":
+            for i in range(len(case[1])):
+                yield ["rtx", case[1][:i] + case[1][i + 1:]]
+            return
         S, rs, mode, clockrate, evs = case
         if len(evs) > 4000:
             n = len(evs)
@@ -289,7 +344,26 @@ class C18(Check):
             yield [S, rs, mode, 1, evs]
 
     # ------------------------------------------------------------ implementation
+    def extra_checks(self, ctx):
+        """`counts packets received exactly` per stream when retransmissions arrive on a separate RTX stream: every
+        arrival feeds the counters of the stream (SSRC) it arrived on"""
+        import random
+        rng = random.Random(1818)
+        n = 300 if ctx["tier"] == "thorough" else 40
+        out = []
+        self.rtx_cases = n
+        for _ in range(n):
+            case = gen_rtx_case(rng)
+            res = run_rtx_case(case)
+            if res.get("got") != res.get("want"):
+                out.append(("packets-received-wrong-stream", f"RTP arrivals per SSRC on the wire {res.get('want')}, counted "
+                                                             f"{res.get('got')}", case))
+                break
+        return out
+
     def impl_run(self, case):
+        if case and case[0] == "rtx":
+            return run_rtx_case(case)
         import asyncio
 
         import aiortc.rtcrtpreceiver as R
@@ -405,6 +479,11 @@ class C18(Check):
 
     # ------------------------------------------------------------ oracle: the property on the implementation
     def oracle(self, case, impl_out):
+        if case and case[0] == "rtx":
+            if impl_out.get("got") != impl_out.get("want"):
+                return ("packets-received-wrong-stream", f"RTP arrivals per SSRC on the wire {impl_out.get('want')}, counted "
+                                                         f"{impl_out.get('got')}")
+            return None
         """RFC 3550 A.1/A.3/A.8 recomputed from the wire history with an independent unwrapping of the
         sequence numbers; every report of the implementation must carry exactly these figures, fit the
         wire, and parse back."""
